@@ -14,6 +14,8 @@ Round 3 (helpers c11_fields.py, c11_modules.py; all three are correspondence str
   * histories: compound / bare / dotted string references issued from 3 synthesised modules within one process, no
     cache cleared in between, from call depth 0-3, a closure and an importing module; with names unique per module
     and with the same names bound in every module.
+Round 4: bare / dotted names also through a shared helper module between issuer and typelib; wrapper chains whose links
+are defined in different modules (c11_modules.cross_groups: correspondence + oracle; class fields: oracle).
 """
 from __future__ import annotations
 
@@ -175,7 +177,10 @@ def build_groups(run):
     # round 3: compound string references from several modules within one process, no cache cleared in between
     hg, hist = c11_modules.build(run.seed, run.tier == "thorough", coreprop.suppressed(), run.notes)
     run._c11_hist = hist
-    return groups + fg + hg, pairs + fp
+    # round 4: wrapper chains whose links are defined in different modules
+    xg, xp = c11_modules.cross_groups(run.seed, run.tier == "thorough", coreprop.suppressed(), run.notes)
+    run._c11_oracle_only = [g for g in xg if getattr(g, "oracle_only", False)]
+    return groups + fg + hg + [g for g in xg if not getattr(g, "oracle_only", False)], pairs + fp + xp
 
 
 FOREIGN_POSITIONS = [("root", "foreign-ref-root"), ("list", "foreign-ref-seq-arg"), ("dict", "foreign-ref-map-value"),
@@ -336,7 +341,8 @@ def search(run: lib.Run, broken):
                     "module_source": g.src, "ref_depth": getattr(g, "ref_depth", 0),
                     "env": {"module": g.env["module"], "defs": {str(k): v for k, v in g.env["defs"].items()}},
                     "plain_desc": g.roots[p["plain"]], "wrapped_desc": g.roots[p["wrapped"]],
-                    "foreign": p["wrapped"] in getattr(g, "foreign", ())}
+                    "foreign": p["wrapped"] in getattr(g, "foreign", ()),
+                    "shop": getattr(g, "shop_specs", {}).get(p["wrapped"]), "cross": p.get("cross")}
         stats["evaluations"] += 1
         if not same_outcome(*p["m"]):
             fails.append(dict(base, symptom="marshaller of the wrapped annotation behaves differently", input_spec=["valid"],
@@ -386,7 +392,11 @@ def search(run: lib.Run, broken):
                 "(first visit / revisit on another path / cycle) x position x chain, class with W(T) on the member vs "
                 "the twin class with T, modulo the identity of the enclosing classes.  Histories: compound / bare / "
                 "dotted string references from 3 modules with distinct names, interleaved, no cache cleared, issued at "
-                "depth 0-3, from a closure and from an importing module, vs the routine of the evaluated annotation",
+                "depth 0-3, from a closure and from an importing module, bare / dotted names also through a shared helper "
+                "module that binds none of them, vs the routine of the evaluated annotation.  Cross-module chains: "
+                "string-valued alias in module A, outer NewType / alias links in module B (B binds the text's names "
+                "not at all / to other classes / identically) at the root, nested, as alias of a generic and on class "
+                "fields, vs the plain annotation",
     }
     best = {}
     for f in fails:
@@ -395,6 +405,7 @@ def search(run: lib.Run, broken):
         if k not in best or size < best[k][0]:
             best[k] = (size, f)
     coreprop.close(groups)
+    coreprop.close(getattr(run, "_c11_oracle_only", []))
     out = [v[1] for v in best.values()]
     try:
         for f in refstie.search(run):
@@ -443,6 +454,8 @@ def replay(payload):
         g.pytys[1] = universe.cname(roots[1][1])
     if payload.get("foreign"):
         c11_modules.attach_importer(g, [1])
+    if payload.get("shop"):
+        c11_modules.attach_shop(g, [(1, payload["shop"][0], payload["shop"][1])])
     try:
         import re
         src = re.sub(r"<(\w+)\.(\w+): [^>]*>", r"\1.\2", payload["input"])
